@@ -490,7 +490,11 @@ func c13Replay(raw json.RawMessage) *mc.Violation {
 		ctx := &mc.Ctx{NShards: 1}
 		c13InProcess(ctx)
 		for _, v := range ctx.Stats.Violations {
-			if string(v.Case) == string(raw) {
+			var got struct {
+				InProcess []string `json:"inprocess"`
+			}
+			json.Unmarshal(v.Case, &got)
+			if fmt.Sprint(got.InProcess) == fmt.Sprint(ip.InProcess) {
 				return &v
 			}
 		}
@@ -500,7 +504,11 @@ func c13Replay(raw json.RawMessage) *mc.Violation {
 	ctx := &mc.Ctx{NShards: 1}
 	c13DirWorker(ctx, maxInt(len(probe.History), 1))
 	for _, v := range ctx.Stats.Violations {
-		if string(v.Case) == string(raw) {
+		var got struct {
+			History []c13Event `json:"history"`
+		}
+		json.Unmarshal(v.Case, &got)
+		if fmt.Sprint(got.History) == fmt.Sprint(probe.History) {
 			return &v
 		}
 	}
